@@ -219,6 +219,100 @@ theorem callMod_invM (s : State) (id : CtxId) (svc : SvcName) (prov cons : Addr)
         obtain ⟨y, hy, _⟩ := h.x.reqCtx r q hq
         exact hfresh (hr ▸ h.x.used r.ctx (by rw [hy]; rfl))
 
+/-! ### the module-service call keeps the bindings world consistent (C03, C14, C15 for this branch) -/
+/-- the bindings world after `respond`, from the bindings-world hypotheses alone -/
+theorem respond_invB_of (s : State) (r : ReqId) (prov : Addr) (code : Nat) (out : OutKind)
+    (hst : InvStatic s) (hB : InvB s)
+    (hside : ∀ q x0, get s.reqs r = some q → get s.ctxs r.ctx = some x0 → ¬ isModAcct s.cfg x0.cons) :
+    InvB (respond s r prov code out).1 := by
+  unfold respond
+  cases hq : get s.reqs r with
+  | none => exact hB
+  | some q =>
+    dsimp only
+    cases hx : get s.ctxs r.ctx with
+    | none => exact hB
+    | some x0 =>
+      dsimp only
+      split; · exact hB
+      split; · exact hB
+      cases hs : settle s r x0.svc x0.cons q prov out with
+      | error res => exact hB
+      | ok res =>
+        obtain ⟨s1, e1⟩ := res
+        dsimp only
+        have hB1 := settle_invB hB hst (hside q x0 hq hx) hs
+        obtain ⟨bank', bs, ea, oe, hshape, _⟩ := settle_shape hs
+        subst hshape
+        split
+        · exact hB1
+        · exact hB1
+
+theorem okOrRollback_invB (s : State) (o : Out) (f : List Effect → List Effect) (hs : InvB s) (ho : InvB o.1) :
+    InvB (match o with
+      | (s3, .ok, e3) => (s3, Res.ok, f e3)
+      | (_, res, _) => (s, res, [])).1 := by
+  obtain ⟨s3, res, e3⟩ := o
+  cases res <;> first | exact ho | exact hs
+
+theorem requestModSvc_invB (s s1 : State) (id : CtxId) (x : Ctx) (svc : SvcName) (prov cons : Addr) (code : Nat)
+    (out : OutKind) (hBs : InvB s) (hB1 : InvB s1) (hst : InvStatic s1)
+    (xc : x.cons = cons) (hcons : ¬ isModAcct s1.cfg cons) :
+    InvB (requestModSvc s s1 id x svc prov cons code out).1 := by
+  unfold requestModSvc
+  by_cases hel : (eligible s1 x).isEmpty = true
+  · rw [if_pos hel]; exact hBs
+  · rw [if_neg hel]
+    cases hb : bankSend s1.bank cons s1.cfg.escrow (sumPrices (eligible s1 x)) with
+    | none => exact hBs
+    | some bank' =>
+      dsimp only
+      refine okOrRollback_invB s _ _ hBs ?_
+      have hned : s1.cfg.deposit ≠ cons := fun e => hcons (Or.inr (Or.inl e.symm))
+      rw [issueReqs_single, firstReqId_bank, firstReq_bank]
+      apply respond_invB_of
+      · exact hst
+      · show BInv s1.cfg s1.params (balOf bank'.bal s1.cfg.deposit) s1.defs s1.bindings s1.ownerBind s1.owner s1.ownerProv s1.pricing
+        rw [bankSend_other hb s1.cfg.deposit hned (fun e => hst.ed e.symm)]
+        exact hB1
+      · intro q x0 _ hx0
+        have hx0' : x0 = { x with batch := x.batch + 1, bstate := .running, respN := 0, reqN := 1, bthr := x.thr } := by
+          simp only [setCtx, addActive, Map.get_set_same, Option.some.injEq] at hx0
+          exact hx0.symm
+        subst hx0'
+        show ¬ isModAcct s1.cfg x.cons
+        rw [xc]; exact hcons
+
+/-- **C03 / C14 / C15 for the module-service call, one step.** From a state satisfying the invariants, the state after
+    `callMod` — accepted or rejected, whatever the module answers, including a malformed output that slashes the
+    module's own provider — satisfies the bindings-world invariant: the deposit account holds exactly the recorded
+    deposits, an available binding holds the minimum for its price, indexes and price terms are consistent. -/
+theorem callMod_invB (s : State) (id : CtxId) (svc : SvcName) (prov cons : Addr) (cap : Option Nat) (inputOk : Bool)
+    (code : Nat) (out : OutKind) (h : Inv s) (hcons : ¬ isModAcct s.cfg cons) :
+    InvB (callMod s id svc prov cons cap inputOk code out).1 := by
+  unfold callMod
+  cases hc : createCtx s id "" svc [prov] cons cap 1 false false 0 0 inputOk true 0 with
+  | mk s1 re =>
+    obtain ⟨res, e⟩ := re
+    cases res with
+    | err _ => exact h.b
+    | invalid => exact h.b
+    | panic _ => exact h.b
+    | ok =>
+      dsimp only
+      have hf : CFrame s s1 := by
+        have := createCtx_cframe s id "" svc [prov] cons cap 1 false false 0 0 inputOk true 0
+        rw [hc] at this; exact this
+      have hB1 : InvB s1 := invB_of_cframe h.b hf
+      obtain ⟨f1, f2, f3, f4, f5, f6, f7, f8, f9, f10, f11, f12, f13⟩ := hf
+      cases hx : get s1.ctxs id with
+      | none => exact h.b
+      | some x =>
+        dsimp only
+        obtain ⟨_, _, xc, _, _⟩ := createCtx_ok_fields s id svc [prov] cons cap 1 inputOk s1 e hc x hx
+        exact requestModSvc_invB s s1 id x svc prov cons code out h.b hB1
+          (by show Static s1.cfg s1.params; rw [f1, f2]; exact h.static) xc (by rw [f1]; exact hcons)
+
 /-! ### the keeper-level binding of the module's provider keeps every invariant -/
 /-- the invariants do not look at the reservation (`cfg.modsvc`) -/
 theorem Inv.setModsvc {s : State} (h : Inv s) (m : Option SvcName) : Inv { s with cfg := { s.cfg with modsvc := m } } :=
